@@ -1,8 +1,12 @@
 import Proofs.ZoneTxnFrame
-/-! The as-shipped variant (D09/D10) coincides with the intended one on owner names given in the zone's own
-spelling (C10, partial theorem for the unchanged tree). -/
+/-! (i) The LEGACY variant of the model (D09/D10, the code before repairs 48a5b1a / 32c445c) coincides with the
+repaired one on owner names given in the zone's own spelling.  (ii) The one decision point still open in the code
+as it is, `get_node` without `_check_ended()`, only matters for a `get_node` call on an ended transaction. -/
 namespace Model.ZT
 open Model
+
+/-- the decision points `d09`/`d10` at their repaired setting, `gn` untouched -/
+def modernCfg (cfg : Cfg) : Cfg := { cfg with d09 := false, d10 := false }
 
 /-- the owner is valid and is given in the spelling the zone stores (relative in a relativized zone, absolute
 otherwise): `_validate_name` returns it unchanged (up to case) -/
@@ -44,15 +48,15 @@ theorem lowerName_length (n : Name) : (lowerName n).length = n.length := by
   unfold lowerName; simp
 
 theorem soaNameOk_native (cfg : Cfg) (ho : WfOrigin cfg) (n : Name) (hn : NativeName cfg n) :
-    soaNameOk cfg n = soaNameOk (specCfg cfg) n := by
+    soaNameOk cfg n = soaNameOk (modernCfg cfg) n := by
   have horig : cfg.origin ≠ [] := by
     intro e; have := ho.abs; rw [e] at this; simp [isAbs] at this
   have hlo : lowerName cfg.origin ≠ [] := by
     intro e; exact horig ((lowerName_eq_nil _).mp e)
   cases hd : cfg.d10 with
-  | false => unfold soaNameOk specCfg effectiveOrigin; simp [hd]
+  | false => unfold soaNameOk modernCfg effectiveOrigin; simp [hd]
   | true =>
-    unfold soaNameOk specCfg effectiveOrigin
+    unfold soaNameOk modernCfg effectiveOrigin
     simp only [hd, if_true, Bool.false_eq_true, if_false]
     cases hrel : cfg.relativize with
     | false =>
@@ -104,12 +108,12 @@ theorem soaNameOk_native (cfg : Cfg) (ho : WfOrigin cfg) (n : Name) (hn : Native
         rw [e1, e2, e3]; rfl
 
 theorem deleteRdataset_native (cfg : Cfg) (v : Nodes) (n : Name) (t c : Nat) (hn : NativeName cfg n) :
-    deleteRdataset cfg v n t c = deleteRdataset (specCfg cfg) v n t c := by
-  have hv2 : validateName (specCfg cfg) n = .ok (lowerName n) := hn
+    deleteRdataset cfg v n t c = deleteRdataset (modernCfg cfg) v n t c := by
+  have hv2 : validateName (modernCfg cfg) n = .ok (lowerName n) := hn
   unfold deleteRdataset
   rw [hn, hv2]
-  show _ = (if _ then (if (specCfg cfg).d09 = true then _ else _) else _)
-  have : (specCfg cfg).d09 = false := rfl
+  show _ = (if _ then (if (modernCfg cfg).d09 = true then _ else _) else _)
+  have : (modernCfg cfg).d09 = false := rfl
   rw [this]
   cases hd : cfg.d09 with
   | false => rfl
@@ -118,28 +122,28 @@ theorem deleteRdataset_native (cfg : Cfg) (v : Nodes) (n : Name) (t c : Nat) (hn
     rfl
 
 theorem checkedDeleteRdataset_native (cfg : Cfg) (s : Txn) (n : Name) (t c : Nat) (veto : Bool) (hn : NativeName cfg n) :
-    checkedDeleteRdataset cfg s n t c veto = checkedDeleteRdataset (specCfg cfg) s n t c veto := by
+    checkedDeleteRdataset cfg s n t c veto = checkedDeleteRdataset (modernCfg cfg) s n t c veto := by
   unfold checkedDeleteRdataset
   rw [deleteRdataset_native cfg s.ver n t c hn]
   rfl
 
 theorem addCore_native (cfg : Cfg) (s : Txn) (rep : Bool) (n : Name) (r : Rdataset) (extra veto : Bool)
-    (h : soaNameOk cfg n = soaNameOk (specCfg cfg) n) :
-    addCore cfg s rep n r extra veto = addCore (specCfg cfg) s rep n r extra veto := by
+    (h : soaNameOk cfg n = soaNameOk (modernCfg cfg) n) :
+    addCore cfg s rep n r extra veto = addCore (modernCfg cfg) s rep n r extra veto := by
   unfold addCore
   rw [h]
   rfl
 
 theorem deleteCore_native (cfg : Cfg) (s : Txn) (exact : Bool) (n : Name) (sel : Sel) (veto : Bool)
     (hn : NativeName cfg n) :
-    deleteCore cfg s exact n sel veto = deleteCore (specCfg cfg) s exact n sel veto := by
+    deleteCore cfg s exact n sel veto = deleteCore (modernCfg cfg) s exact n sel veto := by
   unfold deleteCore
   simp only [checkedDeleteRdataset_native cfg s n _ _ veto hn]
   rfl
 
 theorem txnUpdateSerial_native (cfg : Cfg) (s : Txn) (value : Int) (rel : Bool) (n : Name) (veto : Bool)
-    (h : soaNameOk cfg n = soaNameOk (specCfg cfg) n) :
-    txnUpdateSerial cfg s value rel n veto = txnUpdateSerial (specCfg cfg) s value rel n veto := by
+    (h : soaNameOk cfg n = soaNameOk (modernCfg cfg) n) :
+    txnUpdateSerial cfg s value rel n veto = txnUpdateSerial (modernCfg cfg) s value rel n veto := by
   unfold txnUpdateSerial txnAdd
   have hp : ∀ (m : Name) (r : Rdataset), parseAddArgs [.name m, .rds r] = .ok (m, r, false) := by
     intro m r; simp [parseAddArgs, rdsFromArgs]
@@ -148,12 +152,13 @@ theorem txnUpdateSerial_native (cfg : Cfg) (s : Txn) (value : Int) (rel : Bool) 
 
 /-- on calls whose owner is native, the as-shipped code and the intended variant are the same function -/
 theorem step_native (cfg : Cfg) (ho : WfOrigin cfg) (s : Txn) (op : Op)
-    (h : ∀ n, op.owner = some n → NativeName cfg n) : step cfg s op = step (specCfg cfg) s op := by
+    (h : ∀ n, op.owner = some n → NativeName cfg n) : step cfg s op = step (modernCfg cfg) s op := by
   cases op with
   | commit => rfl
   | rollback => rfl
   | get n t c => rfl
   | nameExists n => rfl
+  | getNode n => rfl
   | changed => rfl
   | dump => rfl
   | add args veto =>
@@ -194,12 +199,39 @@ theorem step_native (cfg : Cfg) (ho : WfOrigin cfg) (s : Txn) (op : Op)
     rw [txnUpdateSerial_native cfg s value rel n veto (soaNameOk_native cfg ho n hn)]
 
 theorem run_native (cfg : Cfg) (ho : WfOrigin cfg) (ops : List Op) (s : Txn)
-    (h : ∀ op ∈ ops, ∀ n, op.owner = some n → NativeName cfg n) : run cfg s ops = run (specCfg cfg) s ops := by
+    (h : ∀ op ∈ ops, ∀ n, op.owner = some n → NativeName cfg n) : run cfg s ops = run (modernCfg cfg) s ops := by
   induction ops generalizing s with
   | nil => rfl
   | cons op rest ih =>
     simp only [run]
     rw [step_native cfg ho s op (h op (List.mem_cons_self ..))]
     rw [ih _ (fun o ho' => h o (List.mem_cons_of_mem _ ho'))]
+
+/-! ### `get_node` and the ended guard -/
+
+def closedCfg (cfg : Cfg) : Cfg := { cfg with gn := false }
+
+/-- does the history call `get_node` on an already ended transaction? -/
+def lateGetNode (cfg : Cfg) : Txn → List Op → Bool
+  | _, [] => false
+  | s, op :: rest => (op.isGetNode && s.ended) || lateGetNode cfg (step cfg s op).1 rest
+
+theorem step_gn (cfg : Cfg) (s : Txn) (op : Op) (h : (op.isGetNode && s.ended) = false) :
+    step cfg s op = step (closedCfg cfg) s op := by
+  cases op with
+  | getNode n =>
+    have he : s.ended = false := by simpa [Op.isGetNode] using h
+    simp only [step, he]
+    rfl
+  | _ => rfl
+
+theorem run_gn (cfg : Cfg) (ops : List Op) (s : Txn) (h : lateGetNode cfg s ops = false) :
+    run cfg s ops = run (closedCfg cfg) s ops := by
+  induction ops generalizing s with
+  | nil => rfl
+  | cons op rest ih =>
+    simp only [lateGetNode, Bool.or_eq_false_iff] at h
+    simp only [run]
+    rw [← step_gn cfg s op h.1, ih _ h.2]
 
 end Model.ZT
